@@ -144,7 +144,7 @@ fn deser_frame<const L: usize>(pat: &[u8; L]) {
     eprintln!("INPUT s={:?}", s);
     let d = LanguageIdentifier::deserialize(In::Str(s));
     let p: Result<LanguageIdentifier, _> = s.parse();
-    cover!(d.is_ok());
+    cover!(d.is_ok() || L < 2);
     cover!(d.is_err());
     match (&d, &p) {
         (Ok(a), Ok(b)) => assert!(a == b, "deserialised value equals the parsed value"),
